@@ -18,29 +18,38 @@ META = {
              "Tie: random DAGs of table-driven test operators (integer hashes; in-place capable, commutative, buffer-overwriting, "
              "multi-output, repeated/optional inputs, >=255 uses of one value, run inputs that are also operator outputs, inputs/constants "
              "requested as outputs) on the real Graph::run under owned/borrowed x RTEN_USE_POOL x 1/2/16 threads x never-in-place build. "
+             "Second family (run-time differential testing, no proof): hand-encoded ONNX models with MatMul/Gemm/Conv over constant weights "
+             "at top level, inside both branches of If (same shapes, different weights, same node ids) and inside Loop bodies (incl. an If "
+             "capturing a grandparent value), integer-valued f32 data, through the public Model API with prepack_weights on/off, "
+             "optimisation on/off, thread pools of 1/2/16 threads, owned/borrowed inputs: every strategy must return exactly the outputs of "
+             "a plain triple-loop reference. "
              "Finding F11b (owned vs borrowed input that is also an operator output) fixed in the tree the check runs against."),
     "note": ("Trusted: Coq kernel; correspondence sample; the Operator::run_in_place contract is a hypothesis (it is C13's subject); thread count, "
-             "weight prepacking and the BufferPool's memory reuse are run-time effects only exercised by the strategy matrix (test operators are "
-             "single-threaded; prepack is not exercised); subgraph operators appear as black boxes that read their captures (C24); "
+             "weight prepacking and the BufferPool's memory reuse are run-time effects, exercised by the two strategy matrices only (no theorem "
+             "covers them); the real-operator family's reference and ONNX encoder are harness code; subgraph operators appear as black boxes that read their captures (C24); "
              "order independence is stated for evaluations that succeed (operator errors excluded)."),
     "technique": "Coq proof (simulation invariant between a heap-level executor and naive evaluation; equation-consistency argument for order independence) + model/implementation correspondence",
 }
 GROUP = "exec"
 REQ = ("From RV Require Import Prelude.\nFrom Planner Require Import Graph.\n"
        "From Exec Require Import ExecModel ModelTestOps.\nOpen Scope N_scope.")
+REQ_R = ("From RV Require Import Prelude.\nFrom Planner Require Import Graph.\n"
+         "From Exec Require Import ExecModel ModelTestOps RealOpsModel.\nOpen Scope N_scope.\n"
+         "Notation case := rcase (only parsing).")
 THEOREMS = ["C02_run_plan_refines_naive", "C02_no_use_after_free", "C02_run_refines_naive",
             "C02_strategy_irrelevant", "C02_in_place_choice_irrelevant", "C02_pool_irrelevant",
             "C02_owned_vs_borrowed_irrelevant", "C02_naive_eval_order_independent",
             "C02_test_operators_meet_contract", "C02_prop_ok_reflect", "C02_nonvacuous"]
 
 
-def one_pass(ctx, name, cases, agree, prop_ok, show, shard, fn_name, classify=None):
+def one_pass(ctx, name, cases, agree, prop_ok, show, shard, fn_name, classify=None, req=None):
     """Evaluate the informational model-agreement function and the property oracle in ONE Coq pass
     over all cases (case terms are large), then hand only the cases that fail the oracle to
     ctx.correspond (which alarms, classifies known findings and writes replay files).
     Returns the indices on which the implementation deviates from the deterministic model."""
     import hashlib
-    dis, pf, err = ctx.coq_eval_cases(GROUP, REQ, [c["term"] for c in cases], agree, prop_ok, shard, tag="all")
+    req = req or REQ
+    dis, pf, err = ctx.coq_eval_cases(GROUP, req, [c["term"] for c in cases], agree, prop_ok, shard, tag="all")
     if err:
         raise vf.CheckerBroken("model evaluation failed for %s: %s" % (name, err))
     bad = set(pf)
@@ -58,7 +67,7 @@ def one_pass(ctx, name, cases, agree, prop_ok, show, shard, fn_name, classify=No
     ctx.log("correspondence %s: %d cases, %d fail the property oracle, %d deviate from the deterministic model"
             % (name, len(cases), len(pf), len(dis)))
     if pf:
-        ctx.correspond(name, GROUP, REQ, [cases[i] for i in pf], classify=classify, agree=prop_ok, prop_ok=prop_ok,
+        ctx.correspond(name, GROUP, req, [cases[i] for i in pf], classify=classify, agree=prop_ok, prop_ok=prop_ok,
                        show=show, shard=shard, fn_name=fn_name)
     else:
         ctx.corr.append({"name": name, "cases": len(cases), "disagree": 0, "property_failures": 0})
@@ -69,19 +78,36 @@ def main(ctx):
     ctx.rule = ("seeded random DAGs (1..14 test operators, arity 0..3, 1..2 outputs, optional/repeated inputs, in-place positions incl. "
                 "out-of-range ones, commutative / buffer-overwriting flags) over 1..4 inputs and 0..2 constants, tensors of 1..40 i32 (>=32 "
                 "elements go through the BufferPool); 5..8 strategies per case; plus sticky-refcount graphs (254..300 uses) and the corpus; "
-                "non-trivial = the plan has at least one operator")
-    ctx.trusted += ["Operator::run_in_place contract (C13) is assumed of operators; the test operators meet it (C02_test_operators_meet_contract)",
+                "non-trivial = the plan has at least one operator. Real-operator family: seeded model shapes (m,k,n0,n1 <= 6), flags for "
+                "Gemm/MatMul per site, Loop (trip 0..3, optional scan output, optional nested If), Conv path; 9 strategies per case")
+    ctx.trusted += ["real-operator family: the naive reference (plain i64 loops for MatMul/Gemm/Conv/If/Loop) and the hand-written ONNX encoder live in the harness",
+                    "Operator::run_in_place contract (C13) is assumed of operators; the test operators meet it (C02_test_operators_meet_contract)",
                     "thread pools, prepacked weights and allocator-level buffer reuse are run-time effects (strategy matrix only)"]
     ctx.assumptions += ["requested outputs are distinct and planned operators write value nodes (guaranteed by the planner, C03)"]
     ctx.audit(GROUP, "planner")
     failed = ctx.prove(GROUP, "Props_C02", THEOREMS) if THEOREMS else []
-    bindir = ctx.harness(GROUP, profile="release", bins=["c02"])
-    cases = ctx.gen_exec(bindir, "c02", ctx.n(300, 1800), inputs=ctx.replay_inputs())
-    dis = one_pass(ctx, "Graph::run-vs-naive_eval", cases, "agree", "prop_ok", "show", 40,
-                   "Exec.ExecModel.naive_eval (outputs under every strategy)")
-    ctx.extra["executor_model_disagreements"] = len(dis)
-    if dis:
-        ctx.log("note: %d case(s) deviate from the deterministic model of today's executor (in-place policy); first: %s"
-                % (len(dis), cases[dis[0]]["input"][:300]))
+    ok, out = ctx.make(GROUP, ["RealOpsModel.vo"])
+    if not ok:
+        raise vf.CheckerBroken("RealOpsModel.v does not compile: " + out[-500:])
+    bindir = ctx.harness(GROUP, profile="release", bins=["c02", "c02r"])
+    replay = ctx.replay_inputs()
+    flat_replay = [l for l in replay if not l.startswith("R ")] if replay else None
+    real_replay = [l for l in replay if l.startswith("R ")] if replay else None
+    # family 1: table-driven test operators on the crate-private Graph (hook)
+    if replay is None or flat_replay:
+        cases = ctx.gen_exec(bindir, "c02", ctx.n(200, 1800), inputs=flat_replay)
+        dis = one_pass(ctx, "Graph::run-vs-naive_eval", cases, "agree", "prop_ok", "show", 13 if ctx.quick() else 40,
+                       "Exec.ExecModel.naive_eval (outputs under every strategy)")
+        ctx.extra["executor_model_disagreements"] = len(dis)
+        if dis:
+            ctx.log("note: %d case(s) deviate from the deterministic model of today's executor (in-place policy); first: %s"
+                    % (len(dis), cases[dis[0]]["input"][:300]))
+    # family 2: real operators through the public API (Model::run on hand-encoded ONNX): prepack on/off,
+    # optimisation on/off, 1/2/16 threads, owned/borrowed inputs -- run-time differential testing
+    if replay is None or real_replay:
+        rcases = ctx.gen_exec(bindir, "c02r", ctx.n(400, 4000), inputs=real_replay)
+        one_pass(ctx, "Model::run-real-operators-strategy-matrix", rcases, "prop_okR", "prop_okR", "showR", 100,
+                 "naive reference (triple loop in harness/exec/src/bin/c02r.rs) under prepack/optimise/threads/owned strategies",
+                 req=REQ_R)
     if failed and not ctx.violations:
         ctx.proof_broken(failed, "all correspondence cases of this run")
